@@ -534,7 +534,8 @@ class KeyringSAXContentHandler(ContentHandler):
         if isinstance(value, str):
             value = value.encode("utf-8")
 
-        self.output.append(len(value))
+        # one length octet - longer strings (e.g. a long Senders list) wrap around like in ETS / Calimero
+        self.output.append(len(value) & 0xFF)
         self.output.extend(value)
 
 
